@@ -71,6 +71,8 @@ RANDOM_CFGS = {
     "r_plain": (dict(kind="plain", mode="FIFO", cap=4, fdelay=1, transit=0, trig=0), {}, 2, False),
     "r_filter": (dict(kind="filter", mode="FIFO", cap=3, fdelay=1, transit=0, trig=2),
                  dict(prios=(0, 1), filters=(0, 1, 2, 3), tags=(0, 1)), 2, False),
+    "r_filter_c5": (dict(kind="filter", mode="FIFO", cap=5, fdelay=1, transit=0, trig=0),
+                    dict(prios=(0,), filters=(1, 1, 2, 3), tags=(0, 0, 1)), 1, False),
     "r_buffer_fifo": (dict(kind="buffer", mode="FIFO", cap=4, fdelay=1, transit=0, trig=0), dict(delays=(0, 1, 3)), 2, True),
     "r_buffer_lifo": (dict(kind="buffer", mode="LIFO", cap=3, fdelay=1, transit=0, trig=0), dict(delays=(0, 2)), 2, True),
     "r_fleet": (dict(kind="fleet", mode="FIFO", cap=3, fdelay=3, transit=1, trig=0), {}, 2, True),
@@ -113,7 +115,7 @@ def corpus(tier, seed):
     W = storecfg.walk_configs(tier)
     budget = 6 if tier == "quick" else 240
     jobs = [(n, c, seed, budget, d) for n, c in W.items()]
-    rjobs = [(n, seed, 12 if tier == "quick" else 150, 150 if tier == "quick" else 300, d) for n in RANDOM_CFGS]
+    rjobs = [(n, seed, 30 if tier == "quick" else 300, 150 if tier == "quick" else 300, d) for n in RANDOM_CFGS]
     with mp.Pool(6 if tier == "quick" else 8) as pool:
         ra = pool.map_async(_random_one, rjobs)
         wa = pool.map_async(_walk_one, jobs)
